@@ -72,6 +72,7 @@ def REQUIRED(tier):
     req = {
         "bind.prepare": 3000 if q else 20000,
         "bind.history": 800 if q else 5000,
+        "bind.churn-rounds": 150,
         "bind.class-access-first": 100,
         "bind.vectorised": 200,
         "bind.xtb.prepare": 100,
@@ -131,7 +132,8 @@ def plan(tier, seed):
            for job in XTB_JOBS for cls in (False, True)]
     # long chunks first; one chunk of every kind among the first few so that the evidence samples show each kind
     hashes = [{"part": "hash", "chunk": i, "n": 40 if q else 200} for i in range(1 if q else 4)]
-    specs = [ex[0], bind[0], pairs[0]] + ex[1:] + pairs[1:] + xtb + bind[1:] + hashes
+    churn = [{"part": "bindchurn", "job": job, "rounds": 60 if q else 300} for job in ("calc", "calc_v", "mixed")]
+    specs = [ex[0], bind[0], pairs[0]] + ex[1:] + pairs[1:] + xtb + bind[1:] + churn + hashes
     only = os.environ.get("C17_PARTS")  # debugging aid: run a subset of the chunks (the run is then INCONCLUSIVE at best)
     if only:
         specs = [s for s in specs if s["part"] in only.split(",")]
@@ -162,6 +164,8 @@ def run_chunk(spec, ctx):
         run_bind_chunk(spec, ctx)
     elif part == "bindxtb":
         run_bindxtb_chunk(spec, ctx)
+    elif part == "bindchurn":
+        run_bindchurn_chunk(spec, ctx)
     elif part == "hash":
         run_hash_chunk(spec, ctx)
     else:
@@ -418,6 +422,54 @@ def run_bind_chunk(spec, ctx):
         ctx.case(case, dkey=("bind", "test", k, jobsel, cls_first, hstr), nontrivial=len(used) >= 2,
                  sample={"kind": "binding", "drivers": k, "job": jobsel, "class_access_first": cls_first,
                          "history": hstr, "settings": [{a: s[a] for a in ("bare", "nprocs", "envars")} for s in sets]})
+
+
+def run_bindchurn_chunk(spec, ctx):
+    """drivers that are created, used and DISCARDED one after another (e.g. one driver per loop iteration): a later
+    driver must not inherit anything from an earlier, dead one"""
+    import gc
+    from molli.pipeline.job import JobInput
+
+    jobsel = spec["job"]
+    bindir = ctx.tmp / "bin"
+    bindir.mkdir(exist_ok=True)
+    Drv, decl, joblevel = make_test_driver()
+    seq = ["calc", "calc_v", "envjob", "plain"]
+    rng = ctx.rng("bindchurn", jobsel)
+    sets = driver_settings(rng, 3, bindir)
+    case = ["bindchurn", jobsel]
+    if not ctx.want(case):
+        return
+    dead = []
+    for it in range(spec["rounds"]):
+        i = (it * 2 + it // 3) % 3
+        s_ = sets[i]
+        drv = Drv(s_["bare"], nprocs=s_["nprocs"], memory=s_["memory"], envars=s_["envars"], check_exe=False, find=False)
+        jn = seq[it % 4] if jobsel == "mixed" else jobsel
+        x, flag, level = f"mol{it}", f"f{it}", "lo"
+        want = {"tokens": [f"{x}.in", "--flag", flag], "joblevel": joblevel[jn], "return_files": decl[jn]}
+        others = list(dead[-3:]) + [{"executable": None, "nprocs": 1, "envars": None}]
+        try:
+            job = getattr(drv, jn)
+            if jn.endswith("_v"):
+                xs = [f"{x}a", f"{x}b"]
+                for xi, inp in zip(xs, list(job.prepare(xs, flag, level=level, misc=None))):
+                    w = dict(want, tokens=[f"{xi}.in", "--flag", flag, "--level", level], files={f"{xi}.in": f"input of {xi}".encode()})
+                    check_input(ctx, inp, drv, w, others, f"churn{it}", it, jn, case)
+            else:
+                inp = job.prepare(x, flag, level=level, misc=None)
+                body = f"input of {x}"
+                w = dict(want, tokens=want["tokens"] + ["--level", level], files={f"{x}.in": body if jn == "plain" else body.encode()})
+                check_input(ctx, inp, drv, w, others, f"churn{it}", it, jn, case)
+        except Exception as e:  # noqa
+            ctx.violation(f"binding:prepare-raises:{type(e).__name__}", case=case, history=f"churn{it}", job=jn, err=repr(e)[:300])
+        ctx.count("bind.churn-rounds")
+        dead.append({"executable": drv.executable, "nprocs": drv.nprocs, "envars": drv.envars})
+        del drv, job
+        if it % 2:
+            gc.collect()
+    ctx.case(case, dkey=("bindchurn", jobsel), nontrivial=True,
+             sample={"kind": "binding-churn", "job": jobsel, "rounds": spec["rounds"]})
 
 
 def run_bindxtb_chunk(spec, ctx):
